@@ -1017,32 +1017,25 @@ theorem finish_R (ext : Ext) (L : Layout) (f : Fixer) :
     simp only [bump_fixes]
     split <;> simp [Except.map, grow, *]
 
-/-- a datetime column whose timestamps carry different UTC offsets (pandas keeps it as an object column) -/
-def mixedDt : ColVals → Bool
-  | .dt xs => !dtHomogeneous xs
-  | _ => false
-
 /-- the DataFrame construction checks of `_make_table` on a precursor -/
 def frameCheck (p : Precursor) : Except PyExc Unit :=
   match p.columns with
   | [] => .ok ()
   | c :: cs =>
     if !cs.all (fun d => d.length = c.length) then .error .valueError
-    else if c.length > 0 && p.columns.any mixedDt then .error .columnUnit
+    else if c.length > 0 && p.columns.any ColVals.dtInhomogeneous then .error .columnUnit
     else .ok ()
 
 theorem makeTable_eq (ext : Ext) (cells : List Row) (f0 : Fixer) :
     makeTable ext cells f0 =
       (makePrecursor ext cells f0).bind (fun r => (frameCheck r.1).bind (fun _ => .ok r)) := by
-  have hm : ∀ d, makeTable.match_1 (fun _ => Bool) d (fun xs => !dtHomogeneous xs) (fun _ => false) = mixedDt d := by
-    intro d; cases d <;> rfl
   unfold makeTable
   simp only [bind]
   cases makePrecursor ext cells f0 with
   | error e => rfl
   | ok r =>
     obtain ⟨p, f⟩ := r
-    simp only [Except.bind, frameCheck, hm]
+    simp only [Except.bind, frameCheck]
     cases hc : p.columns with
     | nil => rfl
     | cons c cs =>
